@@ -102,6 +102,7 @@ func TestWorker(t *testing.T) {
 		// a replay file without tapes (process-exit / process-stuck) re-generates
 		// the run from (seed, run, mode)
 		rc.execSeed = uint64(rc.CaseTape.Choose(1 << 30)) // first draw: seed of the per-execution tapes
+		env.NewNetwork(Mix(rs, 4242))
 		f(env, rc)
 		rc.finish()
 		b, err := json.Marshal(rc.Rec)
